@@ -248,6 +248,53 @@ func checkC09(c *h.Check) {
 			addProg(fmt.Sprintf("C09/dup-field/variant=%d/legacy=%d", variant, legacy), &ir.Program{Root: p, Injectors: []*ir.Injector{inj}}, map[string]bool{"dup-field": true})
 		}
 	}
+	// two same-typed fields of which one carries a tag that only looks like wire's: still a duplicate under "*"
+	for i, tag := range []string{`hardwire:"-"`, `xwire:"-"`, `json:"-"`, `wire:"- "`, `wire:"-,omit"`, `Wire:"-"`, `json:"wire" yaml:"-"`} {
+		for first := 0; first < 2; first++ {
+			b := ir.NewBuilder()
+			p := b.Root
+			t := b.Leaf(p, "T")
+			fa, fb := &ir.Field{Name: "A", T: t}, &ir.Field{Name: "B", T: t}
+			if first == 1 {
+				fa.Tag = tag
+			} else {
+				fb.Tag = tag
+			}
+			agg := b.Agg(p, "S", fa, fb)
+			inj := &ir.Injector{Name: "Init", Out: agg, Items: []*ir.Item{ir.StructItem(agg, "*"), ir.FuncItem(&ir.Func{Pkg: p, Name: "PT", Out: t})}}
+			addProg(fmt.Sprintf("C09/dup-field/lookalike-tag=%d/first=%d", i, first), &ir.Program{Root: p, Injectors: []*ir.Injector{inj}}, map[string]bool{"dup-field": true})
+		}
+	}
+	// needs x has with two injectors of one package sharing the needing provider: each injector is judged against
+	// its own result list, whichever comes first
+	for ps := 1; ps < 4; ps++ {
+		for order := 0; order < 2; order++ {
+			for via := 0; via < 2; via++ {
+				b := ir.NewBuilder()
+				p := b.Root
+				d := b.Leaf(p, "D")
+				r := b.Leaf(p, "R")
+				needy := ir.FuncItem(&ir.Func{Pkg: p, Name: "PNeedy", Out: d, Err: ps&1 != 0, Cleanup: ps&2 != 0})
+				items := func() []*ir.Item {
+					if via == 1 {
+						return []*ir.Item{ir.SetRef(&ir.Set{Pkg: p, Name: "Shared", Items: []*ir.Item{needy}})}
+					}
+					return []*ir.Item{needy}
+				}
+				shared := items()
+				good := &ir.Injector{Name: "InitGood", Out: r, Err: true, Cleanup: true, Items: append([]*ir.Item{ir.FuncItem(&ir.Func{Pkg: p, Name: "PR", Params: []*ir.Type{d}, Out: r})}, shared...)}
+				bad := &ir.Injector{Name: "InitBad", Out: d, Items: shared}
+				injs := []*ir.Injector{good, bad}
+				if order == 1 {
+					injs = []*ir.Injector{bad, good}
+				}
+				prog := &ir.Program{Root: p, Injectors: injs, Hist: 2}
+				cs := &h.Case{ID: fmt.Sprintf("C09/needs-has-two-injectors/provider=%d/order=%d/via=%d", ps, order, via), Files: ir.Render(prog, true), Drive: true,
+					Judge: judgeProgramF(prog, true, map[string]bool{"wiring": true, "error-path": true, "cleanup": true}, map[string]bool{"inj-missing-error": true, "inj-missing-cleanup": true})}
+				addCase(cs, "model:two-injectors")
+			}
+		}
+	}
 	// needs x has: provider shape (4) x injector shape (4) x where the needing provider sits (4)
 	for ps := 0; ps < 4; ps++ {
 		for is := 0; is < 4; is++ {
@@ -293,7 +340,7 @@ func checkC09(c *h.Check) {
 		}
 	}
 	results := c.JudgeAll(cases)
-	stdCoverage(c, cases, results, "provider result lists of length 0..4 and injector result lists of length 0..4 with each position from {value type, error, func(), named func type, alias of func(), other func type, error-like interface}: rejected iff the rule table of the statement says illegal, legal ones accepted and compiled; duplicate parameter types (identical, via alias, []T twice, variadic vs slice, T vs *T which is legal) in three positions of the closure incl. an unused corner; struct providers selecting two fields of identical type (named, \"*\", one prevented, via alias, legacy literal form); needs x has matrix: provider shape (4) x injector shape (4) x position of the needing provider (result, dependency, nested set, other package, present but not needed), accepted ones run with fault enumeration. Distinct = distinct rendered source.")
+	stdCoverage(c, cases, results, "provider result lists of length 0..4 and injector result lists of length 0..4 with each position from {value type, error, func(), named func type, alias of func(), other func type, error-like interface}: rejected iff the rule table of the statement says illegal, legal ones accepted and compiled; duplicate parameter types (identical, via alias, []T twice, variadic vs slice, T vs *T which is legal) in three positions of the closure incl. an unused corner; struct providers selecting two fields of identical type (named, \"*\", one prevented, via alias, legacy literal form, one carrying a tag that only resembles wire's); the needing provider shared by a valid and an invalid injector of one package in either order; needs x has matrix: provider shape (4) x injector shape (4) x position of the needing provider (result, dependency, nested set, other package, present but not needed), accepted ones run with fault enumeration. Distinct = distinct rendered source.")
 	c.Coverage["classes"] = kinds.summary()
 	sampleCase(c, cases, results)
 	if kinds["provider-shape-legal"] < 10 || kinds["provider-shape-illegal"] < 100 || kinds["model:inj-missing-error"]+kinds["model:inj-missing-cleanup"] < 10 {
